@@ -128,15 +128,21 @@ impl<'a> D4B<'a> {
             let x = *self.rng.pick(vars) as i32;
             used = x;
             let f = self.f();
-            self.edges.push((o, f, vec![x]));
-            if self.rng.chance(0.6) { self.edges.push((o, f, vec![-x])); }
+            // sometimes the edges into `f` carry further literals (features that vanish with the false node)
+            let mut extra: Vec<i32> = Vec::new();
+            if self.rng.chance(0.5) { for &v in vars { if v as i32 != x && self.rng.chance(0.5) { extra.push(if self.rng.chance(0.5) { v as i32 } else { -(v as i32) }); } } }
+            let mut l1 = vec![x]; l1.extend(extra.iter());
+            self.edges.push((o, f, l1));
+            if self.rng.chance(0.6) { let mut l2 = vec![-x]; if self.rng.chance(0.5) { l2.extend(extra.iter().map(|e| -e)); } self.edges.push((o, f, l2)); }
             self.stats.f_edges += 1;
         }
         if vars.len() >= 2 && self.rng.chance(0.5) {
             // and(dead, live sibling over other variables)
             let a = self.node('a');
             self.stats.ands += 1;
-            let sib_vars: Vec<u32> = vars.iter().copied().filter(|&v| v as i32 != used && self.rng.chance(0.6)).collect();
+            let mentioned: Vec<u32> = self.edges.iter().filter(|e| e.0 == o).flat_map(|e| e.2.iter().map(|l| l.unsigned_abs())).collect();
+            let _ = used;
+            let sib_vars: Vec<u32> = vars.iter().copied().filter(|v| !mentioned.contains(v) && self.rng.chance(0.6)).collect();
             let sib = self.gen(&sib_vars, depth.saturating_sub(1), false);
             if self.rng.chance(0.5) { self.edges.push((a, o, vec![])); self.edges.push((a, sib, vec![])); }
             else { self.edges.push((a, sib, vec![])); self.edges.push((a, o, vec![])); }
